@@ -34,6 +34,9 @@ type Obligation struct {
 	Props     []string
 	Ctx       *Ctx
 	ModelVars []ModelVar // names whose values are wanted in a counterexample
+	Fn        *ssa.Function
+	Ct        *Contract
+	Clause    *Clause
 
 	// results
 	Result  SolverResult
@@ -70,6 +73,7 @@ type Ctx struct {
 	trusted map[string]bool // trusted-base items used
 	usedFieldInv map[*FieldInv]bool
 	heapAlias    map[string]Term
+	slice        *sliceIndex
 	notes   []string
 }
 
@@ -357,7 +361,11 @@ func (c *Ctx) structSort(t types.Type, st *types.Struct) string {
 }
 
 func (c *Ctx) fieldSel(dtName string, st *types.Struct, i int) string {
-	return fmt.Sprintf("%s.%s", dtName, sanitizeSym(st.Field(i).Name()))
+	n := st.Field(i).Name()
+	if n == "_" || n == "" {
+		n = fmt.Sprintf("blank%d", i)
+	}
+	return fmt.Sprintf("%s.%s", dtName, sanitizeSym(n))
 }
 
 // structField selects field i of a struct-valued term.
